@@ -17,7 +17,7 @@ ASSUMPTIONS = [
     'nothing else delays the timer: no API latency, zero-duration change handlers',
     'any delivered event may reset idling when no diff-base is stored (docs/timers.rst note); only essential changes must',
 ]
-BUDGET = {'quick': 50, 'thorough': 2000}
+BUDGET = {'quick': 50, 'thorough': 1500}
 EPS = 1e-6
 
 
